@@ -194,6 +194,13 @@ theorem rs_inlined_not_reset_priority :
   have := h false true true
   revert this; decide
 
+/-- the repaired reset-priority rows (fix e0dbdb4, both call sites): `(set AND NOT reset) OR (fb AND NOT reset)`.
+The three theorems above describe the forms emitted before that repair and are kept as the record of F22; the
+per-program theorem for the rows actually emitted is `latch_cell_end_to_end` with `setPrio := false`. -/
+theorem rs_latch_repaired (fb setC resetC : Bool) :
+    ((setC && !resetC) || (fb && !resetC)) = latchNext false fb setC resetC := by
+  cases fb <;> cases setC <;> cases resetC <;> rfl
+
 /-- value multiplier: a latched 0/1 times `v` is `v` when on and 0 when off -/
 theorem latch_multiplier (on : Bool) (v : I32) : alu .mul (boolI on) v = if on then v else 0 := by
   cases on <;> simp [alu, boolI]
